@@ -1,4 +1,4 @@
-from dataclasses import dataclass
+from dataclasses import dataclass, field
 from typing import Annotated, Any, Callable
 
 
@@ -10,7 +10,9 @@ from geneticengine.random.sources import RandomSource
 @dataclass
 class Dependent(MetaHandlerGenerator):
     name: str
-    callable: Callable[[Any], type]
+    # (not part of the printed form: a function prints with its address, and the structured representations key gene
+    # lists by the printed form of a symbol)
+    callable: Callable[[Any], type] = field(repr=False)
 
     def validate(self, v) -> bool:
         raise NotImplementedError()  # TODO: Dependent Types
